@@ -39,9 +39,12 @@ def hashseed_for(seed, pid, rnd):
     return simrng.u32(seed, pid, 'hashseed', rnd)
 
 
-def run_worker(args, hashseed, timeout):
+def run_worker(args, hashseed, timeout, logging=False):
+    env = worker_env(hashseed)
+    if logging:
+        env['VERIF_REPLICA_LOGGING'] = '1'
     try:
-        p = subprocess.run([PY, WORKER] + [str(a) for a in args], env=worker_env(hashseed), cwd='/',
+        p = subprocess.run([PY, WORKER] + [str(a) for a in args], env=env, cwd='/',
                            stdout=subprocess.PIPE, stderr=subprocess.PIPE, timeout=timeout)
     except subprocess.TimeoutExpired:
         return {'harness_fatal': 'HARNESS-TIMEOUT worker %s (wall %ss)' % (args, timeout)}
@@ -79,6 +82,23 @@ def plan(pid, tier):
     return plans.PLANS[pid][tier]
 
 
+def replica_plan(pid, seed, r, pl):
+    """(hashseed, logging) per replica of round r.  Ordinary properties have one replica per round."""
+    k = pl.get('replicas', 1)
+    if k == 1:
+        return [(hashseed_for(seed, pid, r), False)]
+    hs = []
+    for i in range(k):
+        if r == 0 and i < 2:
+            hs.append(i)
+        else:
+            hs.append(simrng.u32(seed, pid, 'hashseed', r, i))
+    reps = [(h, False) for h in hs]
+    if pl.get('logging_replica'):
+        reps.append((hs[0], True))
+    return reps
+
+
 def run_check(pid, tier, seed, out=sys.stdout):
     t0 = time.time()
     pl = plan(pid, tier)
@@ -92,27 +112,34 @@ def run_check(pid, tier, seed, out=sys.stdout):
     with cf.ThreadPoolExecutor(NPROC) as ex:
         futs = {}
         for r in range(rounds):
-            hs = hashseed_for(seed, pid, r)
-            futs[ex.submit(_guarded_round, pid, seed, r, tier, hs, t0, wall_cap, round_timeout)] = r
+            for k, (hs, logging) in enumerate(replica_plan(pid, seed, r, pl)):
+                futs[ex.submit(_guarded_round, pid, seed, r, tier, hs, logging, t0, wall_cap, round_timeout)] = (r, k, logging)
         for f in cf.as_completed(futs):
             res = f.result()
+            r, k, logging = futs[f]
             if res is None:
                 skipped += 1
             elif 'harness_fatal' in res:
                 fatal.append(res['harness_fatal'])
             else:
+                res['replica'] = k
+                res['logging'] = logging
                 results.append(res)
-    results.sort(key=lambda d: d['round'])
-    return finish(pid, tier, seed, results, skipped, fatal, t0, out)
+    results.sort(key=lambda d: (d['round'], d['replica']))
+    extra = []
+    if pl.get('replicas', 1) > 1:
+        from sim import bundle
+        extra = bundle.compare_replicas(pid, seed, tier, results, fatal, out)
+    return finish(pid, tier, seed, results, skipped, fatal, t0, out, extra)
 
 
-def _guarded_round(pid, seed, r, tier, hs, t0, wall_cap, round_timeout):
+def _guarded_round(pid, seed, r, tier, hs, logging, t0, wall_cap, round_timeout):
     if time.time() - t0 > wall_cap:
         return None
-    return run_worker(['round', pid, seed, r, tier], hs, round_timeout)
+    return run_worker(['round', pid, seed, r, tier], hs, round_timeout, logging)
 
 
-def finish(pid, tier, seed, results, skipped, fatal, t0, out):
+def finish(pid, tier, seed, results, skipped, fatal, t0, out, extra=()):
     from props import plans
     meta = plans.PLANS[pid]
     known = load_known()
@@ -166,11 +193,18 @@ def finish(pid, tier, seed, results, skipped, fatal, t0, out):
                 violations.append((v, path))
         else:
             unconfirmed.append((v, path, conf))
+    for v, path in extra:
+        kf = match_known(known, pid, v)
+        if kf:
+            knowns.append((kf, v, path))
+        else:
+            violations.append((v, path))
+        counts[(v['cls'], v['site'])] = counts.get((v['cls'], v['site']), 0) + v.get('seen', 1)
     for kf, v, path in knowns:
         print('KNOWN-FINDING: property=%s %s [%s at %s] e.g. replay=%s' % (pid, kf['what'], v['cls'], v['site'], path), file=out)
     for v, path in violations:
         print('  class=%s site=%s tags=%s hashseed=%s seen=%d detail=%s' % (
-            v['cls'], v['site'], v.get('tags', []), v['hashseed'], counts.get((v['cls'], v['site']), 0),
+            v['cls'], v['site'], v.get('tags', []), v.get('hashseed'), counts.get((v['cls'], v['site']), 0),
             json.dumps(v['detail'], ensure_ascii=False)[:400]), file=out)
         print('VIOLATION property=%s replay=%s' % (pid, path), file=out)
     for v, path, conf in unconfirmed:
